@@ -50,6 +50,7 @@ type c12exec struct {
 	parked int32
 	gate   chan struct{}
 	gmu    sync.Mutex
+	hung   bool // a call did not return although its context had ended long before
 }
 
 func (x *c12exec) hook(p string) {
@@ -119,7 +120,26 @@ func (x *c12exec) calls(nodes []uint16, fn func(u uint16) ([]byte, error)) map[u
 			mu.Unlock()
 		}()
 	}
-	wg.Wait()
+	done := make(chan struct{})
+	go func() { wg.Wait(); close(done) }()
+	select {
+	case <-done:
+	case <-time.After(time.Duration(40*x.h.Scale) * time.Second):
+		// every context used here ends after at most 6 s x scale: a call that is still running is stuck for good
+		x.hung = true
+		mu.Lock()
+		defer mu.Unlock()
+		part := map[uint16]callRes{}
+		for u, r := range res {
+			part[u] = r
+		}
+		for _, u := range nodes {
+			if _, ok := part[u]; !ok {
+				part[u] = callRes{u, nil, fmt.Errorf("call had not returned 40 s after it was issued (its context ended long before)")}
+			}
+		}
+		return part
+	}
 	return res
 }
 
@@ -309,6 +329,80 @@ func (x *c12exec) run(e common.Env, p *common.Part) *c12fail {
 				p.Count("held_windows", 1)
 			}
 			time.Sleep(5 * time.Millisecond) // the released continuations run (they must not register anything)
+		case "keygen-second-sync-lost":
+			// loud mode: the first synchronisation completes, the traffic of the second one (on the agreed member list) is lost, so
+			// every KeyGen ends at its deadline INSIDE the second synchronisation; afterwards that lost traffic arrives late
+			if h.Mode != "loud" {
+				continue
+			}
+			memberT := cluster.MemberTopic(x.nodes)
+			type lost struct {
+				src  uint16
+				dsts []uint16
+				data []byte
+			}
+			var lmu sync.Mutex
+			var losts []lost
+			var dropped int32
+			for _, u := range x.nodes {
+				x.c.Net.SetInterceptor(u, func(nw *simnet.Net, src uint16, typ uint8, topic, data []byte, dsts []uint16) []simnet.Outgoing {
+					if typ == uint8(tss.MsgTypeSync) && bytes.Equal(topic, memberT) {
+						lmu.Lock()
+						if len(losts) < 400 {
+							losts = append(losts, lost{src, append([]uint16{}, dsts...), append([]byte{}, data...)})
+						}
+						lmu.Unlock()
+						// only the responses (third message type of the synchroniser) are lost: the members announce themselves and
+						// query each other, nobody ever gets an acknowledgement; everything is recorded and re-sent later
+						if len(data) > 0 && data[0] == 3 {
+							atomic.AddInt32(&dropped, 1)
+							return nil
+						}
+					}
+					var o []simnet.Outgoing
+					for _, d := range dsts {
+						o = append(o, simnet.Outgoing{Dst: d, Type: typ, Topic: topic, Data: data})
+					}
+					return o
+				})
+			}
+			ctx, cancel := context.WithTimeout(context.Background(), x.dl(250))
+			res := x.calls(x.nodes, func(u uint16) ([]byte, error) { return x.c.Schemes[u].KeyGen(ctx, h.N, h.N-1) })
+			cancel()
+			for _, u := range x.nodes {
+				x.c.Net.SetInterceptor(u, nil)
+			}
+			for u, r := range res {
+				if r.err == nil && atomic.LoadInt32(&dropped) > 0 {
+					return fail("completed-without-second-synchronisation", fmt.Sprintf("KeyGen at node %d succeeded although responses of the second synchronisation were lost", u), false)
+				}
+			}
+			x.c.drain(x.dl(300))
+			time.Sleep(5 * time.Millisecond)
+			mark := x.c.logPos()
+			lmu.Lock()
+			late := append([]lost{}, losts...)
+			lmu.Unlock()
+			nl := 0
+			for _, l := range late {
+				for _, d := range l.dsts {
+					x.c.Net.Inject(l.src, simnet.Outgoing{Dst: d, Type: uint8(tss.MsgTypeSync), Topic: memberT, Data: l.data, Tag: "late-second-sync"})
+					nl++
+				}
+			}
+			p.Count("late_packets", int64(nl))
+			x.c.drain(x.dl(1000))
+			for _, ev := range x.c.eventsSince(mark) {
+				if ev.Kind == simnet.EvSend {
+					return fail("late-traffic-effect", fmt.Sprintf("node %d transmitted in response to synchronisation traffic of a key generation that had ended (its second synchronisation is still registered)", ev.Node), false)
+				}
+				if ev.Kind == simnet.EvOnMsg {
+					return fail("late-traffic-effect", fmt.Sprintf("late traffic of the ended key generation reached the backend of node %d", ev.Node), false)
+				}
+			}
+			if nl > 0 {
+				p.Count("held_windows", 1)
+			}
 		case "sign-ok":
 			s := x.signers(rng)
 			x.pick(op.Topic, s)
@@ -565,6 +659,9 @@ func (x *c12exec) run(e common.Env, p *common.Part) *c12fail {
 			}
 			p.Count("foreign_sessions", 1)
 		}
+		if x.hung {
+			return fail("call-did-not-return", "a KeyGen/Sign call had not returned 40 s after it was issued, long after its context ended; every later call on that node waits as well", false)
+		}
 		x.c.drain(x.dl(300))
 	}
 	return nil
@@ -604,7 +701,7 @@ func genC12(rng *rand.Rand, idx int, e common.Env) c12hist {
 				kinds = append(kinds, "keygen-ok", "keygen-with-foreign-traffic")
 			}
 		} else {
-			kinds = []string{"keygen-ok", "keygen-with-foreign-traffic", "keygen-duplicate", "keygen-missing-caller", "keygen-cancel", "keygen-cancel-held", "sign-ok", "sign-ok", "sign-too-few", "sign-cancel", "sign-cancel-held",
+			kinds = []string{"keygen-ok", "keygen-with-foreign-traffic", "keygen-duplicate", "keygen-missing-caller", "keygen-cancel", "keygen-cancel-held", "keygen-second-sync-lost", "sign-ok", "sign-ok", "sign-too-few", "sign-cancel", "sign-cancel-held",
 				"sign-reuse-at-once", "sign-two-topics", "sign-duplicate", "late-replay", "sign-with-foreign-traffic", "keygen-and-sign-at-once"}
 		}
 		k := kinds[rng.Intn(len(kinds))]
@@ -618,7 +715,7 @@ func genC12(rng *rand.Rand, idx int, e common.Env) c12hist {
 			if h.Mode != "silent" {
 				h.Ops = append(h.Ops, c12op{Kind: "sign-ok", Topic: t})
 			}
-		case "keygen-missing-caller", "keygen-cancel", "keygen-cancel-held":
+		case "keygen-missing-caller", "keygen-cancel", "keygen-cancel-held", "keygen-second-sync-lost":
 			h.Ops = append(h.Ops, c12op{Kind: "keygen-ok"})
 		case "sign-ok":
 			if h.Mode != "silent" && rng.Intn(3) == 0 {
@@ -630,7 +727,7 @@ func genC12(rng *rand.Rand, idx int, e common.Env) c12hist {
 }
 
 func unitC12(e common.Env, p *common.Part) {
-	p.Rule = "PRNG histories of 8..40 operations over 3..5 nodes and 2..4 topics on one cluster of real schemes (loud with real disc.Member, barrier, silent): successful / too-few-callers / cancelled KeyGen and Sign, cancellation with the continuation held at a verif point or inside the protocol instance's Init (between instance creation and handler registration), re-use of a topic the moment the previous call returned (continuation held after the result hand-off), two topics at once, a key generation and a signing session at once, duplicate Sign on a live topic, replay of a finished session's traffic, foreign-node and non-member traffic during a live session; every failed or cancelled operation is followed by a successful one on the same topic; distinct key = history hash; non-trivial when the history re-uses a topic, overlaps sessions or injects late/foreign traffic"
+	p.Rule = "PRNG histories of 8..40 operations over 3..5 nodes and 2..4 topics on one cluster of real schemes (loud with real disc.Member, barrier, silent): successful / too-few-callers / cancelled KeyGen and Sign, cancellation with the continuation held at a verif point or inside the protocol instance's Init (between instance creation and handler registration), re-use of a topic the moment the previous call returned (continuation held after the result hand-off), two topics at once, a key generation and a signing session at once, duplicate Sign on a live topic, replay of a finished session's traffic, a key generation whose second synchronisation's traffic is lost and arrives after the call ended, foreign-node and non-member traffic during a live session; every failed or cancelled operation is followed by a successful one on the same topic; distinct key = history hash; non-trivial when the history re-uses a topic, overlaps sessions or injects late/foreign traffic"
 	p.Assumptions = append(p.Assumptions, "silent-mode histories use a fresh topic per session (re-use in silent mode is the separate sub-oracle c12silent); expected failures use short deadlines, expected successes a 6 s watchdog with a replay of the whole history at 5x deadlines before a deadline is judged")
 	n := e.Pick(64, 4000)
 	for i := 0; i < n; i++ {
